@@ -192,3 +192,50 @@ pub fn replay_dispatch(table: &[(&str, fn())]) {
         }
     }
 }
+
+/// A Kani proof harness with the full environment model set applied (DESIGN 2.2):
+/// fmt::format, bumpalo allocation, rust_decimal arithmetic/rounding/comparison.
+/// Natively (replay) it is a plain function running against the real crates.
+#[macro_export]
+macro_rules! vk_proof_models {
+    ($(#[$extra:meta])* unwind $n:literal; fn $name:ident() $body:block) => {
+        $(#[$extra])*
+        #[cfg_attr(kani, kani::proof)]
+        #[cfg_attr(kani, kani::unwind($n))]
+        #[cfg_attr(kani, kani::stub(alloc::fmt::format, crate::verif_env::fmt_format_stub))]
+        #[cfg_attr(kani, kani::stub(bumpalo::Bump::alloc_layout, crate::verif_env::bump_alloc_layout_stub))]
+        #[cfg_attr(kani, kani::stub(bumpalo::Bump::try_alloc_layout, crate::verif_env::bump_try_alloc_layout_stub))]
+        #[cfg_attr(kani, kani::stub(<&rust_decimal::Decimal as core::ops::Add<&rust_decimal::Decimal>>::add, crate::verif_dec::add_ref))]
+        #[cfg_attr(kani, kani::stub(<&rust_decimal::Decimal as core::ops::Sub<&rust_decimal::Decimal>>::sub, crate::verif_dec::sub_ref))]
+        #[cfg_attr(kani, kani::stub(<&rust_decimal::Decimal as core::ops::Mul<&rust_decimal::Decimal>>::mul, crate::verif_dec::mul_ref))]
+        #[cfg_attr(kani, kani::stub(<&rust_decimal::Decimal as core::ops::Div<&rust_decimal::Decimal>>::div, crate::verif_dec::div_ref))]
+        #[cfg_attr(kani, kani::stub(rust_decimal::Decimal::checked_add, crate::verif_dec::checked_add))]
+        #[cfg_attr(kani, kani::stub(rust_decimal::Decimal::checked_sub, crate::verif_dec::checked_sub))]
+        #[cfg_attr(kani, kani::stub(rust_decimal::Decimal::checked_mul, crate::verif_dec::checked_mul))]
+        #[cfg_attr(kani, kani::stub(rust_decimal::Decimal::checked_div, crate::verif_dec::checked_div))]
+        #[cfg_attr(kani, kani::stub(rust_decimal::Decimal::round_dp_with_strategy, crate::verif_dec::round_dp_with_strategy))]
+        #[cfg_attr(kani, kani::stub(rust_decimal::ops::cmp::cmp_impl, crate::verif_dec::cmp_impl))]
+        pub fn $name() $body
+    };
+}
+
+/// Proof harness with only the fmt::format stub.
+#[macro_export]
+macro_rules! vk_proof {
+    ($(#[$extra:meta])* unwind $n:literal; fn $name:ident() $body:block) => {
+        $(#[$extra])*
+        #[cfg_attr(kani, kani::proof)]
+        #[cfg_attr(kani, kani::unwind($n))]
+        #[cfg_attr(kani, kani::stub(alloc::fmt::format, crate::verif_env::fmt_format_stub))]
+        pub fn $name() $body
+    };
+}
+
+/// Turns on symbolic map iteration order (Kani) — no-op natively, where the real HashMap's
+/// order is whatever the process' RandomState gives.
+#[inline(always)]
+pub fn order_nondet(_on: bool) {
+    #[cfg(kani)]
+    crate::verif_map::set_order_nondet(_on);
+}
+
